@@ -8,7 +8,7 @@ WORDS = {'fan'}
 GEN = []
 LEAN_TARGETS = ['OtelVerif.Props.C02Fanout']
 THEOREMS = ['Otel.C02.Fanout.' + t for t in (
-    'fold_calls_every_child', 'fold_result',
+    'fold_calls_every_child', 'fold_result', 'fold_in_order', 'fold_events_of_child',
     'fanout_flush_calls_every_child', 'fanout_flush_sound', 'fanout_flush_complete_batch', 'fanout_flush_false_of_failing_child',
     'fanout_shutdown_calls_every_child', 'fanout_shutdown_result', 'fanout_shutdown_latches_every_child',
     'child_inv_run', 'exporter_shutdown_at_most_once_through_provider', 'exporter_shutdown_exactly_once_through_provider',
